@@ -6,3 +6,8 @@ def culled(divisions, source):
 
 def by_position(divisions, source):
     return tuple([divisions[part] for part in source._partitions] + [divisions[source._partitions[-1] + 1]])
+
+
+def all_selected(frame, partitions):
+    if len(partitions) == frame.npartitions:  # [1, 0] and [0, 0] also have that many entries
+        return frame
